@@ -473,9 +473,11 @@ func (f *Frame) enterLoop(l *Loop, pre *State, prePhi map[*ssa.Phi]Val) *State {
 	for _, p := range l.phis {
 		f.assumeWF(hdr, hdrPhi[p])
 	}
+	vc.fsAnchor = true
 	for _, inv := range l.userInv {
 		vc.fact(Imp(hdr.reach, f.evalLoopInv(l, inv, hdr, hdrPhi)))
 	}
+	vc.fsAnchor = false
 	for _, c := range l.cands {
 		vc.fact(Imp(c.enable, Imp(hdr.reach, c.eval(hdr, hdrPhi))))
 	}
